@@ -30,13 +30,17 @@ def policies(r, driver, root_ph="@ROOT@"):
     """One random I/O policy: (name, rules)."""
     U = root_ph
     kind = r.choice(["cfr-short", "cfr-short", "cfr-short-kth", "cfr-refuse", "cfr-refuse-kth", "uspace-short", "uspace-short",
-                     "ficlone", "fiemap", "eintr", "mix", "mix", "short-then-refuse", "cfr-transient", "seek-unsupported", "seek-unsupported"])
+                     "ficlone", "fiemap", "eintr", "mix", "mix", "short-then-refuse", "cfr-transient", "seek-unsupported", "seek-unsupported",
+                     "cfr-zero-kth"])
     lp = r.choice(LENPOL)
     rules = []
     if kind == "cfr-short":
         rules.append({"id": "s", "sys": "copy_file_range", "under": U, "action": "short", "len": lp})
     elif kind == "cfr-short-kth":
         rules.append({"id": "s", "sys": "copy_file_range", "under": U, "action": "short", "len": lp, "nth": r.randint(1, 4)})
+    elif kind == "cfr-zero-kth":
+        # the shortest count of all: one in-kernel copy moves nothing (what the kernel answers when the source has ended early)
+        rules.append({"id": "s", "sys": "copy_file_range", "under": U, "action": "retval", "val": 0, "nth": r.randint(1, 4)})
     elif kind == "cfr-refuse":
         rules.append({"id": "s", "sys": "copy_file_range", "under": U, "action": "fault", "errno": r.choice([ENOSYS, EXDEV, EPERM])})
     elif kind == "cfr-refuse-kth":
